@@ -482,8 +482,17 @@ func TestVerifWrappers(t *testing.T) {
 	if gm := verifMutateFileSeq(q0, 12345, "/a/", "foo.", ".exr", "#", "1-10", 1); !same(gm, []string{"SetFrameRangeErr=false", "SetFrameSet=false", "String=/a/foo.1-10#.exr"}) {
 		t.Fatalf("SetFrameSet with an unknown frame set: %q", gm)
 	}
+	// a live sequence and a live frame set: SetFrameSet succeeds, the sequence shows the new range,
+	// and the frame set's own reference count is unchanged by it (one Decref still removes it)
+	if gm := verifMutateFileSeq(q0, liveS, "/a/", "foo.", ".exr", "#", "1-10", 1); !same(gm, []string{"SetFrameRangeErr=false", "SetFrameSet=true", "String=/a/foo.5-7#.exr"}) {
+		t.Fatalf("SetFrameSet with a live frame set: %q", gm)
+	}
 	FileSequence_Decref(q0)
 	FrameSet_Decref(liveS)
+	if _, ok := sFrameSets.Get(liveS); ok || sFrameSets.Len() != len0s || sFileSeqs.Len() != len0q {
+		t.Fatalf("after SetFrameSet and the release of both handles: frame set still resolves=%v, live counts %d/%d instead of %d/%d",
+			ok, sFrameSets.Len(), sFileSeqs.Len(), len0s, len0q)
+	}
 
 	// live handles: the wrappers report what the library computes
 	for _, rs := range []string{"1-10", "10-1x3", "1-5,8,20-30x5", "-5--1", "7", "1-12y3", "4-20:5"} {
